@@ -325,6 +325,55 @@ def nested_after_iou_scenarios(viol, stats, samples):
             pr.destroy()
 
 
+def cheater_meets_iou_scenario(viol, stats, samples):
+    """A process that works on a borrowed token notices the exit of its own child while the IOU of an EARLIER cheater is
+    still pending on the cheat pipe.  a.do: `redo-ifchange c` waits for c (being built under b), is starved, borrows,
+    leaves without a token: IOU 1, pending until a.do ends.  Then `redo c2` (c2 under way below b2): waits for the lock,
+    borrows a second time and, being a plain `redo`, rebuilds c2 with the borrowed token: when that child exits, IOU 1
+    is on the pipe.  The child's token has to settle the process's own loan; the
+    process must not be left with a loan and nothing to show for it (before d22951f: assertion failure in
+    force_return_tokens, exit 101 of a's redo, `expected 3 tokens; found 5-0` at the top).  Every script succeeds, so
+    `redo -j3 top` exits 0, the self-test passes and the token trace is accepted by the model."""
+    pr = Project()
+    try:
+        pr.write("top.do", "redo-ifchange a b b2 e e2\n")
+        pr.write("a.do", "sleep 0.4\nredo-ifchange c\nredo c2\n")
+        pr.write("b.do", "redo-ifchange c\nsleep 4.5\n")
+        pr.write("b2.do", "redo-ifchange c2\nsleep 4.5\n")
+        pr.write("e.do", "sleep 4.5\n")
+        pr.write("e2.do", "sleep 4.5\n")
+        pr.write("c.do", "if [ ! -e $2.once ]; then : > $2.once; sleep 1.2; fi\n")
+        pr.write("c2.do", "if [ ! -e $2.once ]; then : > $2.once; sleep 2.4; fi\n")
+        r = sched.run_cmds(pr, [["redo", "-j3", "top"]], timeout=90)[0]
+        stats["runs"] += 1
+        ncheat = sum(1 for e in r.trace if e[2] == "js.cheat")
+        # the situation aimed at: some process notices a child's exit while it has a cheat outstanding (js.childexit … cheats=1)
+        met = sum(1 for e in r.trace if e[2] == "js.childexit" and e[3] and e[3][-1] == "1")
+        stats["cheater_meets_iou"] = dict(cheats=ncheat, child_exits_with_own_cheat_outstanding=met)
+        problems = []
+        if r.timed_out:
+            problems.append("run did not finish within 90 s")
+        if r.rc != 0:
+            problems.append("`redo -j3 top` exited %d although every script succeeds" % r.rc)
+        m = re.search(r"panicked at [^\n]*\n[^\n]*", r.err)
+        if m:
+            problems.append("a redo process aborted: " + m.group(0).replace("\n", " "))
+        if "on exit: expected" in r.err:
+            problems.append("the jobserver owner did not end with the tokens it started with: " + re.search(r"on exit: expected[^\n]*", r.err).group(0))
+        rep = sched.replay_tokens(r.trace)
+        for grp, ans, nev in rep:
+            stats["events"] += nev
+            stats["groups"] += 1
+            if not ans.startswith("ok"):
+                problems.append("token trace rejected by the model (jobserver %s): %s" % (grp, ans))
+        if problems:
+            p = write_replay("C08", "cheater-meets-iou", dict(kind="impl-monitor+trace", problems=problems, stderr=r.err[-2000:], events=sched.token_groups(r.trace),
+                                                              scenario="top.do: redo-ifchange a b b2 e e2.  a.do: sleep 0.4; redo-ifchange c; redo c2.  b.do: redo-ifchange c; sleep 4.5.  b2.do: redo-ifchange c2; sleep 4.5.  e.do, e2.do: sleep 4.5.  c.do: first run sleeps 1.2.  c2.do: first run sleeps 2.4.  redo -j3 top (log viewer on)"))
+            viol.append(Violation("C08", p, "a process on a borrowed token whose child exits while another cheater's IOU is pending: " + "; ".join(problems)))
+    finally:
+        pr.destroy()
+
+
 def makeflags_level(ctx, rng, viol):
     """The jobserver's wire format: `parse_makeflags` (hook verif_parse_makeflags) against `Makeflags.parse` on token
     sequences around the two option spellings, and the value a real `redo -jN` exports to its scripts against
@@ -501,6 +550,8 @@ def run(ctx):
         nested_j_scenarios(random.Random(ctx["seed"] * 137 + 8), viol, stats, samples)
     if not viol:
         nested_after_iou_scenarios(viol, stats, samples)
+    if not viol:
+        cheater_meets_iou_scenario(viol, stats, samples)
     return dict(evaluations=stats["events"], distinct_nontrivial=stats["runs"],
                 rule="MAKEFLAGS strings (all sequences of up to 3 tokens over the option spellings, digits, signs, commas, blanks; seeded longer ones; i32 boundary values) through the real parser and the model, and the value a real redo -jN exports against Makeflags.format; two directed scenarios for the borrowed-token path (followed job waits for a locked target, wakes up with no token free, cheats; then exits with the loan / releases it again) under an inherited jobserver; three directed lock-contention runs under an inherited jobserver (two concurrent top-level commands want the same target; the waiter has all its slots busy first, gives up its token, blocks on the lock; the other build fails / completes the target; k = 0..2 tokens in the pipe, redo / redo-ifchange, -k, with and without log): pipe contents afterwards, model replay, final model pipe and IOU count; two nested `redo -jM sub` runs (M = 1..2) inside `redo -jN` / an inherited jobserver of N-1 tokens (N = 4..5; fan and diamond sub-graphs of 5-6 recording scripts): overlap of the sub-build's work sections <= M (+1 with log), overall <= N, outer tokens conserved, every jobserver's trace replayed; seeded random build graphs (3-9 targets; chains, fans, diamonds, layers; failing, checksummed, always targets) built at -j1..4 with own or inherited (MAKEFLAGS) jobserver, with and without log capture, first build and rebuild; every primitive token event of every process is replayed by the Lean acceptor; distinct = runs",
                 samples=samples, traces_validated_against_impl=stats["groups"], disagreements_checked=stats["events"], distribution=stats, known_hit=known_hit)
